@@ -190,6 +190,17 @@ def check_routing(fx, R):
             verdict = None
             for (g_, s_) in multi:
                 desc = ' && '.join(('' if c[2] else '!') + '(' + c[0] + ')' for c in s_.cond)
+                # a path that leaves without writing a component of the output: the output keeps what the object held before the call.  That is wrong for every component the path's conditions do
+                # not pin to the input (comparing position and yaw of the output with the input says nothing about its covariance)
+                unwritten = [k_ for k_ in want if g_.get(k_) is None]
+                if unwritten and len(unwritten) < len(want) + 1:
+                    ctxt = ' '.join(c[0] for c in s_.cond)
+                    free_ = [k_ for k_ in unwritten if k_ not in ctxt]
+                    if free_ and s_.cond:
+                        verdict = ('violated', 'on the path [%s] %s returns without writing the %s of its output, and the condition does not involve it: the planar %s keeps whatever the output object held before the '
+                                   'call - the value of an earlier conversion when the object is re-used (a robot standing still while its covariance grows), or the zeros of a default-constructed one (a pose at the '
+                                   'origin of a local frame), not the planar components of the 3D quantity it is given' % (desc[:200], fname, ', '.join(free_), ', '.join(free_)))
+                        break
                 for k_, w_ in want.items():
                     v_ = g_.get(k_)
                     if isinstance(w_, list):
@@ -319,6 +330,44 @@ def check_routing(fx, R):
                 R.undecided('K2', 'toPoseAndTwist2D', 'output parameter not readable')
     else:
         R.undecided('K2', 'toPoseAndTwist2D', 'overload not found')
+
+
+def ellipse_argument_value(fx, g, is_pose):
+    """Reads uncertaintyEllipse(...) with a symbolic symmetric covariance and records what is handed to the Ellipse constructor: None (not readable), (True, n paths) or
+    (False, path, matrix handed over, expected, (i, j), difference)."""
+    n = 3 if is_pose else 2
+    C = sp.Matrix(n, n, lambda i, j: sp.Symbol('c%d%d' % (min(i, j), max(i, j)), real=True))
+    seen = []
+
+    def hook(rd, e, st, ctx):
+        if e.get('k') == 'Construct' and (e.get('cls') or '').endswith('Ellipse') and len(e.get('args', [])) == 3:
+            out = []
+            for (vals, s2) in rd.evs(e['args'], st, ctx):
+                seen.append((vals, [(c[0], c[2]) for c in s2.cond]))
+                out.append(({'ellipse': True}, s2))
+            return out
+        return mat.hook(rd, e, st, ctx)
+    rd = sym.Reader(fx, call_hook=hook, member_hook=mat.member_hook)
+    pose = {'position': mat.fresh('p', 2, 1), 'covariance': sp.ImmutableMatrix(C)}
+    if is_pose:
+        pose['yaw'] = sp.Symbol('yaw', real=True)
+    try:
+        rd.run(g, args=[pose, sp.Symbol('arg:sigmaScale', positive=True)][:len(g['params'])])
+    except sym.Unsupported:
+        return None
+    if not seen:
+        return None
+    want = sp.Matrix(C[0:2, 0:2])
+    for (vals, conds) in seen:
+        M = vals[1]
+        if not isinstance(M, sp.MatrixBase) or M.shape != (2, 2) or any(x_.atoms(sp.core.function.AppliedUndef) for x_ in M if isinstance(x_, sp.Basic)):
+            return None
+        D = (sp.Matrix(M) - want).applyfunc(sp.simplify)
+        bad = [(i, j) for i in range(2) for j in range(2) if D[i, j] != 0]
+        if bad:
+            desc = ' && '.join(('' if pol else '!') + '(' + txt + ')' for (txt, pol) in conds)
+            return (False, desc, sp.Matrix(M).tolist(), want.tolist(), bad[0], D[bad[0][0], bad[0][1]])
+    return (True, len(seen))
 
 
 def by_value_delegation(fx, R, fname, fv):
@@ -666,4 +715,14 @@ def check_ellipse(fx, R):
             if ok and law in (None, 'lin'):
                 R.holds('K4', 'uncertaintyEllipse(%s)' % ('Pose2D' if is_pose else 'Position2D'), 'position, xy covariance block, sigma', fx.rel(g['loc']), 'E-SIB')
             else:
-                R.undecided('K4', 'uncertaintyEllipse(%s)' % ('Pose2D' if is_pose else 'Position2D'), 'idiom not recognised: %s' % (st2,))
+                # by value: the function is read with a symbolic covariance; what reaches the Ellipse constructor must be the xy block of that covariance (the marginal covariance of the position), on every path
+                v_ = ellipse_argument_value(fx, g, is_pose)
+                who_ = 'Pose2D' if is_pose else 'Position2D'
+                if v_ is None:
+                    R.undecided('K4', 'uncertaintyEllipse(%s)' % who_, 'idiom not recognised: %s' % (st2,))
+                elif v_[0]:
+                    R.holds('K4', 'uncertaintyEllipse(%s)' % who_, 'the covariance handed to the constructor is the xy block on every path (%d)' % v_[1], fx.rel(g['loc']), 'E-ALG')
+                else:
+                    R.violated('K4', 'uncertaintyEllipse(%s):covariance' % who_, 'on the path [%s] the covariance handed to the Ellipse constructor is %s, not the xy block of the covariance (%s): the ellipse is built from '
+                               'another matrix - entry (%d,%d) differs by %s - so R diag(major^2, minor^2) R^T / sigma^2 does not reproduce the xy covariance whenever that term is not zero (a covariance with '
+                               'position-heading cross terms, as every filter produces)' % (v_[1][:120], str(v_[2])[:160], v_[3], v_[4][0], v_[4][1], str(v_[5])[:120]), fx.rel(g['loc']), 'E-ALG')
